@@ -344,10 +344,36 @@ def execute(case: dict) -> dict:
                     n += 1
                 elif kind == "recv":
                     await do_recv(a, op[2])
-                elif kind == "close":
-                    h.ev(a.name, "close")
+                elif kind == "recv_ctx":
+                    # `async with stream: await stream.receive()` - the exit runs aclose(),
+                    # possibly while this actor's cancellation is being delivered
+                    try:
+                        async with handles[a.name]:
+                            await do_recv(a, False)
+                    finally:
+                        h.ev(a.name, "ctx-exit")
+                        open_r.discard(a.name)
+                        if not open_r:
+                            receive_side_now_closed()
+
+                        audit("async-with-exit")
+                elif kind in ("close", "aclose"):
+                    h.ev(a.name, kind)
                     (open_s if sp["role"] == "S" else open_r).discard(a.name)
-                    handles[a.name].close()
+                    if kind == "aclose":
+                        # the asynchronous form (also what `async with stream:` runs); whether
+                        # it returns or the caller's pending cancellation surfaces in it, the
+                        # handle is closed afterwards
+                        try:
+                            await handles[a.name].aclose()
+                        finally:
+                            if sp["role"] == "R" and not open_r:
+                                receive_side_now_closed()
+
+                            audit("aclose")
+                    else:
+                        handles[a.name].close()
+
                     if sp["role"] == "R" and not open_r:
                         receive_side_now_closed()
 
@@ -734,11 +760,12 @@ def gen_c13(rng: random.Random, cfgs: list[str]) -> dict:
                 elif r < 0.8:
                     ops.append(["close_clone", rng.randint(0, 2)])
                 else:
-                    ops.append(["close", rng.randint(0, 3), rng.random() < 0.3])
+                    ops.append([rng.choice(["close", "close", "aclose"]), rng.randint(0, 3),
+                                rng.random() < 0.3])  # fmt: skip
                     closed = True
 
             if not closed and rng.random() < 0.8:
-                ops.append(["close", rng.randint(0, 4), rng.random() < 0.2])
+                ops.append([rng.choice(["close", "aclose"]), rng.randint(0, 4), rng.random() < 0.2])
                 if rng.random() < 0.3:
                     ops.append([("send" if role == "S" else "recv"), 0, rng.random() < 0.5])
                     if rng.random() < 0.3:
@@ -794,6 +821,25 @@ def sweep_c13(cfgs: list[str]):  # noqa: ANN201
                                 yield {"cfg": cfg, "cap": cap, "actors": actors,
                                        "agents": [{"at": at, "place": place, "victim": 0}],
                                        "spare_s": False, "spare_r": False}  # fmt: skip
+
+    # the only receiver sits in `async with stream: await stream.receive()` and is cancelled;
+    # its handle must be closed by the exit although the cancellation is still pending, so a
+    # sender arriving later (or already blocked) learns that nobody will ever receive
+    for cfg in cfgs:
+        for cap in (0, 1):
+            for at in range(1, 6):
+                for place in ("before", "after"):
+                    for mode in ("scope", "native-in-group"):
+                        for late in (2, 4):
+                            actors = [
+                                {"role": "R", "mode": mode, "ops": [["recv_ctx", 0, False]]},
+                                {"role": "S", "mode": "scope",
+                                 "ops": [["send", at + late, False], ["send", 0, False],
+                                         ["send", 0, False]]},
+                            ]  # fmt: skip
+                            yield {"cfg": cfg, "cap": cap, "actors": actors,
+                                   "agents": [{"at": at, "place": place, "victim": 0}],
+                                   "spare_s": False, "spare_r": False}  # fmt: skip
 
     for cfg in cfgs:
         for cap in (0, 1):
